@@ -21,6 +21,9 @@ claimed = {
  "C06": dict(sec="7 C06",
    text="Proof (loop-free handler, all sizes and limits) that a DATA block longer than MaxMessageBytes is never passed to Deliver and that the session continues in READY with an empty envelope.",
    note="assumed: ReadDotBytes returns the block it read; bytes.Buffer.Bytes returns the slice it was built from"),
+ "C12": dict(sec="7 C12",
+   text="Proof of the decision logic: the visitor DoScan passes to VisitMailboxes calls RemoveMessage exactly for the messages whose Date is before the cutoff (count and, in order, mailbox and id of each, via the store's ghost removal log) and for no other; with a retention period <= 0 Start never scans and removes nothing; whenever Start returns the shutdown channel is closed exactly once (Join is released).  'While mail is being delivered' and 'stops promptly' are schedule / liveness statements and are not decided.",
+   note="assumed: time.Time.Before is a pure function of two instants, Message getters pure, Store.VisitMailboxes applies the visitor to lists of existing messages (interface contract; refined by the stores when they come under contract), select/channels nondeterministic (D3)"),
  "C13": dict(sec="7 C13",
    text="Proof that every POP3 command sequence preserves I_pop (one flag per snapshot message, msgCount == number of set flags, by induction lemmas over a recursive count), that the snapshot slice is assigned only at login, that DELE clears exactly one set flag, RSET sets all, STAT's loop count equals msgCount, LIST/UIDL send exactly msgCount entry lines, that RemoveMessage is called only by QUIT in TRANSACTION state and exactly for the marked messages (ghost removal log, in order, with the message's own id), that any other end of the command loop removes nothing, and that no index/nil/type-assertion panic is reachable in handler.go.",
    note="assumed: storage.Store / storage.Message interface contracts (getters pure), fmt.Fprint counted but content not modelled, bufio/net/tls contracts, TLS out of scope; listener not covered"),
@@ -36,7 +39,6 @@ pending = {
  "C09": "monitor-invariant obligations not built yet; see DESIGN.md section 7",
  "C10": "file-store contracts not built yet; see DESIGN.md section 7",
  "C11": "ghost file system not built yet; see DESIGN.md section 7",
- "C12": "retention contracts not built yet; see DESIGN.md section 7",
  "C14": "HTTP handler contracts not built yet; see DESIGN.md section 7",
  "C15": "hub contracts not built yet; see DESIGN.md section 7",
  "C16": "event-emission contracts not built yet; see DESIGN.md section 7",
